@@ -47,6 +47,13 @@ Pairs(k) == RandomSubset(4, {s \in SeqsUpTo({h \in OkHs : blk[h].kind = k}, 3) :
 GenActs ==
        {[op |-> "new", h |-> h, kind |-> k, v |-> v] : h \in Hs, k \in {"big", "tip"}, v \in RandomSubset(3, GenInts)}
   \cup UNION {{[op |-> "bset", h |-> h, v |-> v] : v \in RandomSubset(3, GenInts) \cup InBlock(h) \cup Next1(h)} : h \in OkHs}
+  \cup {[op |-> "bnew0", h |-> h, kind |-> k] : h \in {RandomElement(Hs)}, k \in {"big", "tip"}}
+  \cup {[op |-> "bdata", h |-> h, kind |-> k, start |-> st, bytes |-> b]
+          : h \in {RandomElement(Hs)}, k \in {"big", "tip"},
+            st \in RandomSubset(1, {Zeros(SD), <<1, 0, 0, 0>>, <<1023, 1023, 3, 0>>}), b \in RandomSubset(2, AllByteStrs)}
+  \cup {[op |-> "bdata", h |-> h, kind |-> "big", start |-> st, bytes |-> b]
+          : h \in {RandomElement(Hs)}, st \in RandomSubset(1, {<<0, 0, 4, 0>>, <<1022, 1023, 1023, 3>>, <<5, 6, 7, 2>>}),
+            b \in RandomSubset(1, AllByteStrs)}
   \cup {[op |-> "brev", h |-> h, d |-> d] : h \in OkHs, d \in Hs}
   \cup UNION {{[op |-> "bgetn", h |-> h, dir |-> dir, n |-> n]
                  : dir \in {"f", "r"}, n \in {0, 1, 2, SLen(h), SLen(h) + 1, 2000}} : h \in OkHs}
@@ -60,8 +67,8 @@ GenActs ==
   \cup [op : {"fresh", "marshal"}]
   \cup (IF cur = {} THEN [op : {"unmarshal"}, bytes : RandomSubset(4, AllByteStrs)] ELSE {})
 
-(* a plan needs the actions only; the reply decides the transition for unmarshal alone *)
-GenNext == \E a \in GenActs : Typed(a) /\ Step(a, IF a.op = "unmarshal" THEN ImplReply(a) ELSE 0)
+(* a plan needs the actions only; the reply decides the transition for unmarshal / bdata alone *)
+GenNext == \E a \in GenActs : Typed(a) /\ Step(a, IF a.op \in {"unmarshal", "bdata"} THEN ImplReply(a) ELSE 0)
 GenSpec == InitWith(NH) /\ [][GenNext]_allvars
 
 (* Invariants are evaluated on every candidate successor during simulation; the first        *)
